@@ -237,7 +237,7 @@ var vdBoundaryDates = [][3]int{
 // (With a symbolic date as well the solver does not decide the combined time and calendar
 // normalisation; symbolic dates are covered by VerifC33PlusDays.)
 //
-//symgo:harness prop=C33 tier=quick arith=int timeout=300 ttimeout=1500 qtimeout=20000 shards=4 tshards=8 bounds=probe
+//symgo:harness prop=C33 tier=quick arith=int timeout=300 ttimeout=1500 qtimeout=60000 shards=4 tshards=8 bounds=probe
 func VerifC33PlusTime() {
 	vdEnable()
 	nd := 12
@@ -424,12 +424,19 @@ func VerifC33Compare() {
 }
 
 // C33: a date's literal text parses back to the same date (all four text forms: date only,
-// hhmm, hhmmss, hhmmssmmm) and a timestamp's text to the same timestamp.
+// hhmm, hhmmss, hhmmssmmm) and a timestamp's text to the same timestamp. Concrete boundary
+// dates, symbolic time of day (the text form depends on the time fields only).
 //
 //symgo:harness prop=C33 tier=quick arith=int timeout=300 qtimeout=20000 shards=2 tshards=4 bounds=probe
 func VerifC33Literal() {
 	vdEnable()
-	y, m, d, h, mi, s, ms := vdAny("")
+	nd := 4
+	if rt.Thorough() {
+		nd = len(vdBoundaryDates)
+	}
+	ymd := vdBoundaryDates[rt.Pick("date", nd)]
+	y, m, d := ymd[0], ymd[1], ymd[2]
+	h, mi, s, ms := rt.IntRange("hour", 0, 23), rt.IntRange("minute", 0, 59), rt.IntRange("second", 0, 59), rt.IntRange("ms", 0, 999)
 	switch rt.Pick("form", 5) {
 	case 0:
 		h, mi, s, ms = 0, 0, 0, 0
